@@ -7,7 +7,7 @@ from props.asm_common import oracle as spec_oracle
 PID = "C01"
 LEAN_TARGETS = ["EtkVerif.Props.C01"]
 RULE = ("1-5 labels each followed by a sentinel jumpdest, 1-6 fixed-width and %push operands over label expressions (forward, "
-        "backward, `label +- k`, `K - label`), fillers that put offsets at 250..256 (thorough: also 65530..65534), every label "
+        "backward, `label +- k`, `K - label`), fillers that put offsets at 250..256 and, in every tenth case, at 65529..65536 (one raw blob); every 25th case has 1-3 %push whose label crosses 65536 only after widening, so a push grows twice in separate rounds; every label "
         "probed at the end by `push3 label`; checked three ways: bytes = reference semantics (least fixed point layout in "
         "Python), bytes = model, and independently of both: the output is decoded and out[probe immediate] must be the "
         "sentinel 0x5b. non-trivial = some %push grew beyond one byte or a label value >= 256")
@@ -24,9 +24,10 @@ def cases(rng, tier):
     cs = []
     n = 250 if tier == "quick" else 4000
     for i in range(n):
-        big = tier == "thorough" and i % 400 == 0
-        prog, labels = with_probes(rng, G.gen_shrink(rng) if (i % 5 == 4 and not big) else G.gen_layout(rng, big=big))
-        cs.append(G.finish(prog, rng, ["layout-big" if big else "layout"], extra={"probes": len(labels)}))
+        big = (i % 10 == 7) if tier == "quick" else (i % 20 == 7)   # fillers as one raw blob: a push can grow twice
+        twice = i % 25 == 3
+        prog, labels = with_probes(rng, G.gen_twice(rng) if twice else G.gen_shrink(rng) if (i % 5 == 4 and not big) else G.gen_layout(rng, big=big))
+        cs.append(G.finish(prog, rng, ["twice" if twice else "layout-big" if big else "layout"], extra={"probes": len(labels)}))
     return cs
 
 
